@@ -45,6 +45,7 @@ type Gen struct {
 	Features map[string]bool
 	keys     map[string]bool
 	nfield   int
+	embedDepth int
 }
 
 func New(r *vm.Rand) *Gen { return &Gen{R: r, Avoid: map[string]bool{}, Features: map[string]bool{}} }
@@ -151,6 +152,9 @@ func (g *Gen) genStruct(depth int, embedded bool) reflect.Type {
 	if depth >= 3 {
 		n = r.Range(0, 3)
 	}
+	if embedded {
+		n = r.Range(2, 4)
+	}
 	var fields []reflect.StructField
 	for i := 0; i < n; i++ {
 		g.nfield++
@@ -161,10 +165,15 @@ func (g *Gen) genStruct(depth int, embedded bool) reflect.Type {
 		var tag string
 		kind := r.Intn(14)
 		switch {
-		case kind == 0 && depth < 3 && !embedded && g.ok("embedded"):
-			// embedded struct (promoted fields)
+		case (kind == 0 || (embedded && kind == 3)) && g.embedDepth < 6 && g.ok("embedded"):
+			// embedded struct (promoted fields); chains of embedding up to 6 levels deep
 			g.feat("embedded")
-			et := g.genStruct(depth+1, true)
+			g.embedDepth++
+			if g.embedDepth >= 3 {
+				g.feat("embedded.depth>=3")
+			}
+			et := g.genStruct(depth, true)
+			g.embedDepth--
 			fields = append(fields, reflect.StructField{Name: fmt.Sprintf("E%d", g.nfield), Type: et, Anonymous: true})
 			continue
 		case kind == 1 && g.ok("ptr"):
@@ -1216,4 +1225,31 @@ func TargetFor(r *vm.Rand, want *refnbt.Value, depth int, feats map[string]bool)
 		return reflect.StructOf(fields)
 	}
 	return anyType
+}
+
+// DeepEmbedded builds a struct with a chain of `levels` anonymous embedded
+// structs (by value, or by pointer when ptr is true), every level contributing
+// two or three fields of different kinds. Keys are "L<level>a/b/c".
+func DeepEmbedded(levels int, ptr bool) reflect.Type {
+	var inner reflect.Type
+	for l := levels; l >= 0; l-- {
+		fields := []reflect.StructField{
+			{Name: fmt.Sprintf("A%d", l), Type: reflect.TypeOf(""), Tag: reflect.StructTag(fmt.Sprintf(`nbt:"L%da"`, l))},
+			{Name: fmt.Sprintf("B%d", l), Type: reflect.TypeOf(int32(0)), Tag: reflect.StructTag(fmt.Sprintf(`nbt:"L%db"`, l))},
+		}
+		if l%2 == 0 {
+			fields = append(fields, reflect.StructField{Name: fmt.Sprintf("C%d", l), Type: reflect.TypeOf([]int64(nil)), Tag: reflect.StructTag(fmt.Sprintf(`nbt:"L%dc"`, l))})
+		}
+		if inner != nil {
+			t := inner
+			if ptr {
+				// embedded pointers must point to a named... reflect.StructOf allows embedded *struct only for named types; use value embedding for the chain and a pointer FIELD instead
+				fields = append(fields, reflect.StructField{Name: fmt.Sprintf("P%d", l), Type: reflect.PointerTo(t), Tag: reflect.StructTag(fmt.Sprintf(`nbt:"L%dp"`, l))})
+			} else {
+				fields = append(fields, reflect.StructField{Name: fmt.Sprintf("E%d", l), Type: t, Anonymous: true})
+			}
+		}
+		inner = reflect.StructOf(fields)
+	}
+	return inner
 }
